@@ -187,3 +187,5 @@ def run(ctx, rep):
     iolib.count_rules(ctx, rep, "C16")
     from rules import cachelib
     cachelib.cache_rules(ctx, rep, "C16")
+    from rules import C03 as _C03
+    compose(ctx, rep, "C03", "C16.codes", r"^C03\.rfc$")
